@@ -18,27 +18,34 @@ Definition PLL_SEND_CONFIRM := 4. Definition PLL_REQUEST_RESPOND := 5. Definitio
 (* ---------------------------------------------------------------- balanced primary *)
 Record pb := {
   pb_ls : Z; pb_ps : Z; pb_wait : bool; pb_lastsend : Z; pb_origsend : Z; pb_test : bool; pb_nfcb : bool;
-  pb_other : Z; pb_last : list Z; pb_lastrx : Z; pb_idle : Z }.
+  pb_other : Z; pb_last : list Z; pb_lastrx : Z; pb_idle : Z;
+  pb_tout : bool (* testFunctionOutstanding: the frame waiting for its confirmation is a test function (variant fg only) *) }.
 
 Definition pb_init (other idle : Z) : pb :=
   {| pb_ls := LS_IDLE; pb_ps := PLL_IDLE; pb_wait := false; pb_lastsend := 0; pb_origsend := 0; pb_test := false;
-     pb_nfcb := true; pb_other := other; pb_last := []; pb_lastrx := 0; pb_idle := idle |}.
+     pb_nfcb := true; pb_other := other; pb_last := []; pb_lastrx := 0; pb_idle := idle; pb_tout := false |}.
 
 Definition pb_set_state (p : pb) (ns : Z) : pb * list out :=
   if pb_ls p =? ns then (p, [])
   else ({| pb_ls := ns; pb_ps := pb_ps p; pb_wait := pb_wait p; pb_lastsend := pb_lastsend p; pb_origsend := pb_origsend p;
            pb_test := pb_test p; pb_nfcb := pb_nfcb p; pb_other := pb_other p; pb_last := pb_last p;
-           pb_lastrx := pb_lastrx p; pb_idle := pb_idle p |}, [OLs (-1) ns]).
+           pb_lastrx := pb_lastrx p; pb_idle := pb_idle p; pb_tout := pb_tout p |}, [OLs (-1) ns]).
 
 Definition pb_upd (p : pb) (ps : Z) (wait : bool) (lastsend origsend : Z) (test nfcb : bool) (last : list Z) : pb :=
   {| pb_ls := pb_ls p; pb_ps := ps; pb_wait := wait; pb_lastsend := lastsend; pb_origsend := origsend;
-     pb_test := test; pb_nfcb := nfcb; pb_other := pb_other p; pb_last := last; pb_lastrx := pb_lastrx p; pb_idle := pb_idle p |}.
+     pb_test := test; pb_nfcb := nfcb; pb_other := pb_other p; pb_last := last; pb_lastrx := pb_lastrx p; pb_idle := pb_idle p;
+     pb_tout := pb_tout p |}.
 Definition pb_with_ps (p : pb) (ps : Z) : pb := pb_upd p ps (pb_wait p) (pb_lastsend p) (pb_origsend p) (pb_test p) (pb_nfcb p) (pb_last p).
 Definition pb_with_wait (p : pb) (w : bool) : pb := pb_upd p (pb_ps p) w (pb_lastsend p) (pb_origsend p) (pb_test p) (pb_nfcb p) (pb_last p).
 Definition pb_with_test (p : pb) (t : bool) : pb := pb_upd p (pb_ps p) (pb_wait p) (pb_lastsend p) (pb_origsend p) t (pb_nfcb p) (pb_last p).
 Definition pb_with_lastrx (p : pb) (x : Z) : pb :=
   {| pb_ls := pb_ls p; pb_ps := pb_ps p; pb_wait := pb_wait p; pb_lastsend := pb_lastsend p; pb_origsend := pb_origsend p;
-     pb_test := pb_test p; pb_nfcb := pb_nfcb p; pb_other := pb_other p; pb_last := pb_last p; pb_lastrx := x; pb_idle := pb_idle p |}.
+     pb_test := pb_test p; pb_nfcb := pb_nfcb p; pb_other := pb_other p; pb_last := pb_last p; pb_lastrx := x; pb_idle := pb_idle p;
+     pb_tout := pb_tout p |}.
+Definition pb_with_tout (p : pb) (x : bool) : pb :=
+  {| pb_ls := pb_ls p; pb_ps := pb_ps p; pb_wait := pb_wait p; pb_lastsend := pb_lastsend p; pb_origsend := pb_origsend p;
+     pb_test := pb_test p; pb_nfcb := pb_nfcb p; pb_other := pb_other p; pb_last := pb_last p; pb_lastrx := pb_lastrx p; pb_idle := pb_idle p;
+     pb_tout := x |}.
 
 Definition reset_frame (c : llcfg) (address : Z) (dir : bool) : list Z := enc_fixed (alen c) 0 address true dir false false.
 
@@ -54,7 +61,9 @@ Definition pb_handle (v : variant) (c : llcfg) (now : Z) (dir : bool) (p0 : pb) 
     if ps =? PLL_RESET then
       let '(p1, o) := pb_set_state p LS_AVAILABLE in (pb_with_ps (pb_with_wait p1 false) PLL_AVAILABLE, o)
     else if ps =? PLL_SEND_CONFIRM then
-      let '(p1, o) := pb_set_state (pb_with_test p false) LS_AVAILABLE in (pb_with_ps (pb_with_wait p1 false) PLL_AVAILABLE, o)
+      (* original: the confirmation clears a test request, also one made while user data is outstanding; fg: the request
+         is cleared when the test frame is sent *)
+      let '(p1, o) := pb_set_state (if fg v then p else pb_with_test p false) LS_AVAILABLE in (pb_with_ps (pb_with_wait p1 false) PLL_AVAILABLE, o)
     else if ps =? PLL_REQ_STATUS then (p, [])
     else (pb_with_wait p false, [])
   else if fc =? 1 then
@@ -101,12 +110,12 @@ Definition pb_run (v : variant) (c : llcfg) (now : Z) (dir : bool) (p : pb) (q :
     let p0 := pb_with_lastrx p lr in
     let test := if now - lr >? pb_idle p then true else pb_test p in
     if test then
-      (pb_upd p0 PLL_SEND_CONFIRM (pb_wait p) now now true (negb (pb_nfcb p)) (pb_last p), q,
+      (pb_with_tout (pb_upd p0 PLL_SEND_CONFIRM (pb_wait p) now now (negb (fg v)) (negb (pb_nfcb p)) (pb_last p)) (if fg v then true else pb_tout p), q,
        [OTx (enc_fixed (alen c) 2 (pb_other p) true dir (pb_nfcb p) true)])
     else
       match q with
       | d :: rest =>
-          (pb_upd p0 PLL_SEND_CONFIRM true now now false (negb (pb_nfcb p)) d, rest,
+          (pb_with_tout (pb_upd p0 PLL_SEND_CONFIRM true now now false (negb (pb_nfcb p)) d) (if fg v then false else pb_tout p), rest,
            tx_opt (enc_var (alen c) 3 (pb_other p) true dir (pb_nfcb p) true d))
       | [] => (p0, q, [])
       end
@@ -118,7 +127,8 @@ Definition pb_run (v : variant) (c : llcfg) (now : Z) (dir : bool) (p : pb) (q :
         let '(p2, o) := pb_set_state p1 LS_ERROR in (pb_with_ps p2 PLL_IDLE, q, o)
       else
         (pb_upd p1 ps (pb_wait p) now (pb_origsend p) (pb_test p) (pb_nfcb p) (pb_last p), q,
-         if pb_test p then [OTx (enc_fixed (alen c) 2 (pb_other p) true dir (negb (pb_nfcb p)) true)]
+         (* original: what is repeated depends on the request flag; fg: on what is outstanding *)
+         if (if fg v then pb_tout p else pb_test p) then [OTx (enc_fixed (alen c) 2 (pb_other p) true dir (negb (pb_nfcb p)) true)]
          else tx_opt (enc_var (alen c) 3 (pb_other p) true dir (negb (pb_nfcb p)) true (pb_last p)))
     else (p1, q, [])
   else (p, q, []).
@@ -192,7 +202,10 @@ Definition sc_handle (v : variant) (c : llcfg) (now : Z) (s0 : sc) (fc : Z) (acd
         if ps =? PLL_RESET then
           let '(s1, o) := sc_set_state s LS_AVAILABLE in (sc_with_wait (sc_with_ps s1 PLL_AVAILABLE) false, o)
         else if ps =? PLL_SEND_CONFIRM then
-          let s1 := if sc_test s then sc_with_test s false else sc_with_msg s false (sc_msg s) in
+          (* original: a pending test request takes the confirmation, the message stays and is sent again as a new frame;
+             fg: only user data is sent with SEND/CONFIRM, the message is confirmed *)
+          let s1 := if fg v then sc_with_msg s false (sc_msg s)
+                    else if sc_test s then sc_with_test s false else sc_with_msg s false (sc_msg s) in
           let '(s2, o) := sc_set_state s1 LS_AVAILABLE in (sc_with_wait (sc_with_ps s2 PLL_AVAILABLE) false, o)
         else if ps =? PLL_REQUEST_RESPOND then
           let '(s1, o) := sc_set_state s LS_AVAILABLE in (sc_with_wait (sc_with_ps s1 PLL_AVAILABLE) false, o)
@@ -217,7 +230,7 @@ Definition sc_handle (v : variant) (c : llcfg) (now : Z) (s0 : sc) (fc : Z) (acd
           let '(s1, o) := sc_set_state s LS_AVAILABLE in (sc_with_wait (sc_with_ps s1 PLL_AVAILABLE) false, o)
         else let '(s1, o) := sc_set_state s LS_ERROR in (sc_with_wait (sc_with_ps s1 PLL_IDLE) false, o)
       else if (fc =? 14) || (fc =? 15) then
-        if ps =? PLL_SEND_CONFIRM then
+        if (ps =? PLL_SEND_CONFIRM) || (fh v && (ps =? PLL_REQUEST_RESPOND)) then   (* fh: a negative answer ends REQUEST/RESPOND too *)
           let '(s1, o) := sc_set_state s LS_AVAILABLE in (sc_with_wait (sc_with_ps s1 PLL_AVAILABLE) false, o)
         else (sc_with_wait s false, [])
       else (sc_with_wait s false, []) in
@@ -252,7 +265,8 @@ Definition sc_run (v : variant) (c : llcfg) (now : Z) (s : sc) : sc * list out :
     else let '(s1, o) := sc_set_state (sc_with_ps s PLL_AVAILABLE) LS_AVAILABLE in (s1, o)
   else if ps =? PLL_AVAILABLE then
     if sc_test s then
-      (sc_mk s (sc_ls s) PLL_REQUEST_RESPOND (sc_has s) (sc_msg s) now now (sc_r1 s) (sc_r2 s) true (sc_test s) (negb (sc_nfcb s)) 2,
+      (* original: the request flag is never cleared on this path (test frames for ever); fg: cleared when the frame is sent *)
+      (sc_mk s (sc_ls s) PLL_REQUEST_RESPOND (sc_has s) (sc_msg s) now now (sc_r1 s) (sc_r2 s) true (negb (fg v)) (negb (sc_nfcb s)) 2,
        [OTx (enc_fixed (alen c) 2 a true false (sc_nfcb s) true)])
     else if sc_has s then
       (sc_mk s (sc_ls s) PLL_SEND_CONFIRM (sc_has s) (sc_msg s) now now (sc_r1 s) (sc_r2 s) true (sc_test s) (negb (sc_nfcb s)) (sc_lastfc s),
@@ -273,7 +287,7 @@ Definition sc_run (v : variant) (c : llcfg) (now : Z) (s : sc) : sc * list out :
         sc_set_state (sc_with_ps (sc_with_lastsend (sc_with_wait s1 false) now) PLL_TIMEOUT) LS_ERROR
       else
         (sc_with_lastsend s1 now,
-         if sc_test s then [OTx (enc_fixed (alen c) 2 a true false (negb (sc_nfcb s)) true)]
+         if negb (fg v) && sc_test s then [OTx (enc_fixed (alen c) 2 a true false (negb (sc_nfcb s)) true)]
          else tx_opt (enc_var (alen c) 3 a true false (negb (sc_nfcb s)) true (sc_msg s)))
     else (s1, [])
   else if ps =? PLL_REQUEST_RESPOND then
